@@ -426,6 +426,7 @@ func streamGen(c *Ctx) {
 		genCheckFile(c, f, outDir, i)
 	}
 	genMultiFileProbe(c)
+	genVersionedPackagesProbe(c)
 	typecheckGenerated(c, outDir)
 	checkedInOutput(c)
 }
@@ -474,6 +475,52 @@ func genMultiFileProbe(c *Ctx) {
 		}
 		if len(res.File) != wantFiles || paths != wantFiles {
 			c.Fail("gen-file-count", desc, fmt.Sprintf("%d files %v, %d with their procedure path", len(res.File), names, paths), fmt.Sprintf("every file with services gets its generated file (%d expected)", wantFiles))
+		}
+	}
+}
+
+// genVersionedPackagesProbe: one plugin run over two versions of an API - same service and
+// method names, different packages (acme.greet.v1 / acme.greet.v2): every generated file routes
+// its RPCs at ITS canonical paths and mentions none of the other package's.
+func genVersionedPackagesProbe(c *Ctx) {
+	empty := protodesc.ToFileDescriptorProto((&emptypb.Empty{}).ProtoReflect().Descriptor().ParentFile())
+	mk := func(ver string) *descriptorpb.FileDescriptorProto {
+		return &descriptorpb.FileDescriptorProto{
+			Name: proto.String("acme/greet/" + ver + "/greet.proto"), Syntax: proto.String("proto3"), Package: proto.String("acme.greet." + ver),
+			Dependency: []string{"google/protobuf/empty.proto"},
+			Options:    &descriptorpb.FileOptions{GoPackage: proto.String("example.com/gen/acme/greet/" + ver + ";greet" + ver)},
+			Service: []*descriptorpb.ServiceDescriptorProto{{Name: proto.String("GreetService"), Method: []*descriptorpb.MethodDescriptorProto{
+				{Name: proto.String("Greet"), InputType: proto.String(".google.protobuf.Empty"), OutputType: proto.String(".google.protobuf.Empty")},
+				{Name: proto.String("Watch"), InputType: proto.String(".google.protobuf.Empty"), OutputType: proto.String(".google.protobuf.Empty"), ServerStreaming: proto.Bool(true)}}}},
+		}
+	}
+	v1, v2 := mk("v1"), mk("v2")
+	for _, order := range [][]string{{v1.GetName(), v2.GetName()}, {v2.GetName(), v1.GetName()}} {
+		desc := "one request for " + strings.Join(order, " and ")
+		res, err := runPlugin(&pluginpb.CodeGeneratorRequest{FileToGenerate: order, ProtoFile: []*descriptorpb.FileDescriptorProto{empty, v1, v2}})
+		c.Count("gen-versioned-packages")
+		if err != nil || res.Error != nil {
+			c.Fail("gen-plugin-failed", desc, fmt.Sprint(err, res.GetError()), "the generator failed on a valid request")
+			continue
+		}
+		if len(res.File) != 2 {
+			c.Fail("gen-file-count", desc, fmt.Sprint(len(res.File)), "two files with services, two generated files")
+			continue
+		}
+		for _, f := range res.File {
+			own, other := "v1", "v2"
+			if strings.Contains(f.GetName(), "/v2/") || strings.Contains(f.GetName(), "greetv2") {
+				own, other = "v2", "v1"
+			}
+			content := f.GetContent()
+			for _, m := range []string{"Greet", "Watch"} {
+				if !strings.Contains(content, `"/acme.greet.`+own+`.GreetService/`+m+`"`) {
+					c.Fail("gen-path", desc, f.GetName(), "the file for acme.greet."+own+" does not route "+m+" at /acme.greet."+own+".GreetService/"+m)
+				}
+			}
+			if strings.Contains(content, `/acme.greet.`+other+`.GreetService/`) {
+				c.Fail("gen-path", desc, f.GetName(), "the file for acme.greet."+own+" mentions paths of acme.greet."+other)
+			}
 		}
 	}
 }
